@@ -947,12 +947,17 @@ type OutsParams struct {
 	// file name equal to the directory name of a collection output, 5 as 1
 	// with the explicitly named output declared first.
 	Collide int `json:",omitempty"`
+	// Keys is the MapKeyStyle of the typed maps the producer returns.
+	Keys int `json:",omitempty"`
 }
 
 func (d OutsParams) String() string {
 	c := ""
 	if d.Collide != 0 {
 		c = fmt.Sprintf(" collide=%d", d.Collide)
+	}
+	if d.Keys != 0 {
+		c += fmt.Sprintf(" keys=%d", d.Keys)
 	}
 	return fmt.Sprintf("outs{outs=%s outname=%v size=%d mode=%d prodmap=%v topmap=%v wrap=%v%s}",
 		strings.Join(d.Outs, "+"), d.OutName, d.Size, d.Mode, d.ProdMap, d.TopMap, d.Wrap, c)
@@ -962,11 +967,18 @@ func OutsFlow(d OutsParams) *Program {
 	p := baseProgram()
 	p.Desc = d.String()
 	p.Structs = append(p.Structs, &StructDecl{Name: "FS", Fields: []Param{{T: IntT, Name: "x"}, {T: FiletypeT("txt"), Name: "f"}}})
-	outs := append(filewOuts(), Param{T: IntT, Name: "num"}, Param{T: ArrayOf(ArrayOf(FiletypeT("txt"))), Name: "ff"})
+	p.Structs = append(p.Structs, &StructDecl{Name: "OUTER", Fields: []Param{{T: StructT("FS"), Name: "inner"},
+		{T: ArrayOf(FiletypeT("txt")), Name: "list"}, {T: TMapOf(FileT), Name: "m"}, {T: FileT, Name: "named", OutName: "explicit.bin"}}})
+	outs := append(filewOuts(), Param{T: IntT, Name: "num"}, Param{T: ArrayOf(ArrayOf(FiletypeT("txt"))), Name: "ff"},
+		Param{T: TMapOf(ArrayOf(FiletypeT("txt"))), Name: "mfa"}, Param{T: StructT("OUTER"), Name: "so"})
 	prod := &Stage{Name: "FILEW", Fn: "FILEW", Ins: []Param{{T: IntT, Name: "n"}, {T: IntT, Name: "mode"}}, Outs: outs}
 	p.Stages = append(p.Stages, prod)
 	top := &Pipeline{Name: "TOP", Ins: []Param{{T: IntT, Name: "n"}, {T: IntT, Name: "mode"}}}
 	call := &Call{Callee: "FILEW", Binds: []Bind{{"n", Self("n")}, {"mode", Self("mode")}}}
+	if d.Keys != 0 {
+		prod.Ins = append(prod.Ins, Param{T: IntT, Name: "kstyle"})
+		call.Binds = append(call.Binds, Bind{"kstyle", Lit(Int(int64(d.Keys)))})
+	}
 	if d.ProdMap {
 		call.Map = true
 		call.Binds[0].E = SplitE(Lit(Arr(Int(int64(d.Size)), Int(int64(d.Size)+1))))
@@ -1061,7 +1073,7 @@ func OutsFlow(d OutsParams) *Program {
 }
 
 func OutsFamily(thorough bool) []OutsParams {
-	names := []string{"f", "g", "fs", "fm", "s", "ss", "ms", "sp", "um", "d", "num", "ff"}
+	names := []string{"f", "g", "fs", "fm", "s", "ss", "ms", "sp", "um", "d", "num", "ff", "mfa", "so"}
 	var sets [][]string
 	for _, n := range names {
 		sets = append(sets, []string{n})
@@ -1082,12 +1094,26 @@ func OutsFamily(thorough bool) []OutsParams {
 										dev++
 									}
 								}
-								if dev > 2 && !thorough {
+								if dev > 3 && !thorough {
 									continue
 								}
 								out = append(out, OutsParams{Outs: set, OutName: on, Size: size, Mode: mode, ProdMap: pm, TopMap: tm, Wrap: wr})
 							}
 						}
+					}
+				}
+			}
+		}
+	}
+	for ks := 1; ks <= 5; ks++ {
+		for _, set := range [][]string{{"fm"}, {"ms"}, {"mfa"}, {"so"}} {
+			for _, size := range []int{2, 1, 11} {
+				for _, pm := range []bool{false, true} {
+					for _, tm := range []bool{false, true} {
+						if size != 2 && (pm || tm) {
+							continue
+						}
+						out = append(out, OutsParams{Outs: set, Size: size, ProdMap: pm, TopMap: tm, Keys: ks})
 					}
 				}
 			}
